@@ -81,3 +81,18 @@ PROPS["C05"] = dict(
           "Non-trivial = must-refuse class, or language has >= 3 sentences up to k and the AST uses >= 2 distinct operators; distinct = distinct grammar text."),
     assumptions=["tokens are compared after stripping one pair of surrounding quotes", "weights appear only at the start of alternatives"],
 )
+
+PROPS["C13"] = dict(
+    harness="fsg",
+    level="exploration",
+    technique="property-based testing with a harness automaton library: best-weight bounded language before/after each transformation (metamorphic), idempotence, write/read round trip with a derived tolerance",
+    level_text="Random FSGs built through the fsg_model API (duplicates, self-loops, null chains and cycles, unreachable states, start==final, probabilities log-uniform down to 1e-6, lw in {0.5,1,6.5,9.5}) are copied out through the public arc iterator; duplicate merging, closure (language, completeness for one null step, idempotence), silence/filler loops (language modulo fillers, presence, idempotence), alternates (language modulo alternate projection, parallel arcs) and write->read are compared with the harness' own epsilon-NFA computations.",
+    level_note="Trusted: fsa.h enumerator (bounded to k words, k chosen per case), logmath_log/exp (C19). The alternate lists emulate the dictionary; the dictionary-driven path through fsg_search is exercised by the decode harness.",
+    quick=dict(cases=1500, maxlen=200, budget=90),
+    thorough=dict(cases=30000, maxlen=200, budget=900),
+    rule=("choices decode to an FSG: 1-8 states, start/final, lw, 0-14 word arcs over 1-5 words (20% duplicates of earlier arcs with another "
+          "probability, 15% self-loops), 0-8 null arcs (40% as a chain/cycle over consecutive states), probabilities from {1, k/1000, log-uniform "
+          "[1e-6,1], 1e-6}, alternates for some words. Non-trivial = language has >= 2 sentences up to k and the input has a null chain or duplicate arcs; "
+          "distinct = distinct case text."),
+    assumptions=["state numbers passed to the API are in range (its FIXME says it does not check)", "arc log-probabilities are <= 0"],
+)
